@@ -112,7 +112,15 @@ def k_gen(p):
                 return False, "ValueError"
             return True, "connect_coding_graph raised %s" % ex
         why = wf_concrete(k, r[1].tolist(), t)
-        return (True, "generated graph is not well-formed: " + why) if why else (False, "well-formed")
+        if why:
+            return True, "generated graph is not well-formed: " + why
+        vs_, rows_ = np.array(r[0]), r[1].tolist()
+        den = sorted(int(x) for x in (np.where(vs_)[0] if vs_.dtype == bool or len(vs_) == 4 ** k and set(vs_.tolist()) <= {0, 1} and t >= 2 else vs_))
+        for v in den:
+            if not any(x >= 0 for x in rows_[v]):
+                _s, ex_ = call(dsw.encode, np.array([1, 0, 1], dtype=int), r[1], v)
+                return True, "vertex %d is reported as retained but encoding from it fails: %s" % (v, ex_)
+        return False, "well-formed"
     if not any(keep):
         if ex is None:
             return True, "largest closed sub-graph is empty but a graph was returned (%d live rows)" % int((np.array(r[1]) >= 0).any(axis=1).sum())
@@ -560,6 +568,27 @@ def _is_walk(acc, start, s):
     return True
 
 
+def warm_graph(k, mode):
+    N = 4 ** k
+    return [[((v * 4 + j) % N if (mode == "full" or (v + j) % 2 == 0) else -1) for j in range(4)] for v in range(N)]
+
+
+def warm_calls(k, mode):
+    """the warm-up repairs of checks/repair.py (kept textually identical)"""
+    out = []
+    rows = warm_graph(k, mode)
+    for v0 in range(4 ** k):
+        v, strand = v0, ""
+        for i in range(2 * k + 2):
+            live = [j for j in range(4) if rows[v][j] >= 0]
+            j = live[(i + v0) % len(live)]
+            strand += "ACGT"[j]
+            v = rows[v][j]
+        out.append((strand, rows, v0, k))
+    out.append(("ACGTTGCATCGAGT"[:3 * (k + 1) + 2], warm_graph(k + 1, "full"), 0, k + 1))
+    return out
+
+
 def k_repair(p):
     """C08 / C09 / C10 on a concrete input."""
     import dsw
@@ -568,7 +597,8 @@ def k_repair(p):
     s, start = p["strand"], int(p["start"])
     chk = p.get("vt_check")
     if p.get("warmup"):
-        call(dsw.repair_dna, "ACGTTGCA"[:2 * k + 2], np.array(induced(k, [True] * (4 ** k)), dtype=int), 0, k, has_indel=True)
+        for strand, wrows, wstart, kk in warm_calls(k, p["warmup"] if p["warmup"] in ("full", "sparse") else "full"):
+            call(dsw.repair_dna, strand, np.array(wrows, dtype=int), wstart, kk, has_indel=True)
     r, ex = call(dsw.repair_dna, s, acc, start, k, vt_check=chk, has_indel=bool(p.get("has_indel", True)), heap_size=p.get("heap_size", 1e9))
     if ex is not None:
         return True, "repair_dna(%r, start=%d) raised %s" % (s, start, ex)
@@ -640,6 +670,8 @@ def k_repr(p):
                 cur = [x for u in cur for x in rows[u] if x >= 0]
             a, ex1 = call(dsw.obtain_leaf_vertices, root, d, accessor=acc.copy())
             b, ex2 = call(dsw.obtain_leaf_vertices, root, d, latter_map=lm)
+            if {int(x): [int(y) for y in z] for x, z in lm.items()} != exp_lm:
+                return True, "leaf query (root=%d depth=%d) modified the latter map it was given" % (root, d)
             if ex1 or ex2:
                 return True, "obtain_leaf_vertices raised %s / %s" % (ex1, ex2)
             if sorted(int(x) for x in a) != sorted(cur) or sorted(int(x) for x in b) != sorted(cur):
@@ -878,6 +910,8 @@ def k_capacity(p):
     N = len(rows)
     repeats = int(p.get("repeats", 1))
     np.random.seed(int(p.get("seed", 0)))
+    if p.get("prior") is not None:
+        call(dsw.approximate_capacity, np.array(p["prior"], dtype=int), repeats=repeats)
     r, ex = call(dsw.approximate_capacity, acc, repeats=repeats)
     if ex is not None:
         return True, "approximate_capacity raised %s" % ex
